@@ -199,7 +199,7 @@ pub fn gen_len(r: &mut Rng, allow_big: bool) -> usize {
     }
 }
 
-const MULTI: [&str; 16] = ["é", "ß", "Ж", "中", "日本", "𝄞", "😀", "\u{0}", ".", "\"", "\\", "\u{7f}", "\u{fffd}", "\\/", "\n", "\u{1b}"];
+const MULTI: [&str; 18] = ["\u{2028}", "\u{2029}", "é", "ß", "Ж", "中", "日本", "𝄞", "😀", "\u{0}", ".", "\"", "\\", "\u{7f}", "\u{fffd}", "\\/", "\n", "\u{1b}"];
 
 /// strings that look like something else: JSON text, key-serialisation (PASERK) prefixes, tokens
 pub const LOOKALIKES: [&str; 30] = [
@@ -406,15 +406,17 @@ pub fn gen_claim(r: &mut Rng, allow_time: bool, now: i128) -> ClaimSpec {
         3 => ClaimSpec::Jti(text!(r, r.usize(12))),
         4 if allow_time => {
             let t = now + r.range(60 * civil::NS, 10 * YEAR);
-            ClaimSpec::Exp(render_canonical(r, t))
+            ClaimSpec::Exp(render_canonical_t(r, t))
         }
         5 if allow_time => {
             let t = now - r.range(2 * civil::NS, 10 * YEAR).min(now - T_1971);
-            ClaimSpec::Nbf(render_canonical(r, t))
+            ClaimSpec::Nbf(render_canonical_t(r, t))
         }
         6 if allow_time => {
-            let t = now - r.range(0, YEAR).min(now - T_1971);
-            ClaimSpec::Iat(render_canonical(r, t))
+            // usually in the past; sometimes ahead of the verifier's clock (issuer clock running fast) - iat is
+            // informational, only nbf and exp bound the validity window
+            let t = if r.chance(1, 4) { now + r.range(HOUR, 3 * DAY) } else { now - r.range(0, YEAR).min(now - T_1971) };
+            ClaimSpec::Iat(render_canonical_t(r, t))
         }
         7 => ClaimSpec::Native { key: gen_key(r), val: gen_native(r) },
         8 => ClaimSpec::CustomRef { key: gen_key(r), value: gen_json(r, 2) },
@@ -426,6 +428,14 @@ pub fn gen_claim(r: &mut Rng, allow_time: bool, now: i128) -> ClaimSpec {
 // timestamp renderings
 
 /// canonical rendering (upper-case T, 'Z' or ±hh:mm, 0–9 fraction digits on the instant's grid)
+/// canonical rendering with the upper-case 'T' separator only (where the text goes through the claim
+/// constructors, which take ISO 8601 and may not accept every RFC 3339 spelling)
+pub fn render_canonical_t(r: &mut Rng, t: i128) -> String {
+    let mut st = canonical_style(r, t);
+    st.sep = 'T';
+    civil::render(t, st)
+}
+
 pub fn render_canonical(r: &mut Rng, t: i128) -> String {
     let st = canonical_style(r, t);
     civil::render(t, st)
@@ -437,7 +447,7 @@ pub fn canonical_style(r: &mut Rng, t: i128) -> civil::Style {
         2 => *r.pick(&[-1439, -720, -60, -1, 1, 60, 330, 345, 720, 840, 1439]),
         _ => r.range(-1439, 1439) as i32,
     };
-    civil::Style { offset_min, frac_digits: needed_digits(t, r), sep: 'T', zulu: if r.chance(2, 3) { Some('Z') } else { None } }
+    civil::Style { offset_min, frac_digits: needed_digits(t, r), sep: *r.pick(&['T', 'T', 'T', 'T', ' ', 't']), zulu: if r.chance(2, 3) { Some('Z') } else { None } }
 }
 
 /// smallest digit count that renders `t` exactly, possibly padded with more digits
